@@ -164,7 +164,7 @@ def record_and_validate(res, exe, wd, cases, prop):
 
     def rec(i):
         cp = os.path.join(wd, "cases_%d.ndjson" % i)
-        write_ndjson(cp, [{k: c[k] for k in ("id", "layout", "sched", "sleep", "faults", "mode", "noise") if k in c} for c in chunks[i]])
+        write_ndjson(cp, [{k: c[k] for k in ("id", "layout", "sched", "sleep", "faults", "mode", "noise", "werr") if k in c} for c in chunks[i]])
         tp = os.path.join(wd, "trace_%d.ndjson" % i)
         run_tmv(exe, ["loop", cp], stdout_path=tp)
         return tp
@@ -238,7 +238,7 @@ def digest(res, prop, cases, bad, kn):
         if mine:
             c = by_id.get(base_id(tid))
             if nrep < 10:
-                res.violation(",".join(mine), {"engine": "E2-loop-trace", "trace_id": tid, "layout": c["layout"], "sched": c["sched"], "sleep": c["sleep"], "fault": fault_of(tid), "mode": c.get("mode", "scripted"), "noise": c.get("noise", 0),
+                res.violation(",".join(mine), {"engine": "E2-loop-trace", "trace_id": tid, "layout": c["layout"], "sched": c["sched"], "sleep": c["sleep"], "fault": fault_of(tid), "mode": c.get("mode", "scripted"), "noise": c.get("noise", 0), "werr": c.get("werr", 5),
                                                "how": "bin/check %s --replay <this file> runs the real loop under this schedule again and lets TLC validate the trace" % prop})
                 nrep += 1
             else:
@@ -268,7 +268,8 @@ def variants(prop, tier, cases):
     # the same runs one level lower: the REAL driver (mio, evdev-format reads, uinput-format writes) with the three system
     # calls it makes answered by the same scripted environment; MSC/SYN framing, auto-repeat and unnamed-key noise rotate
     stride = {"quick": 3, "thorough": 1}[tier]
-    out += [dict(c, id=c["id"] + "-sys%d" % (i % 3), mode="sys", noise=i % 3) for i, c in enumerate(out[::stride])]
+    # an injected write failure carries EIO, EAGAIN or ENODEV in turn (the two the readers treat as "no data" / "device gone")
+    out += [dict(c, id=c["id"] + "-sys%d" % (i % 3), mode="sys", noise=i % 3, werr=[5, 11, 19][(i // 3) % 3]) for i, c in enumerate(out[::stride])]
     return out
 
 
@@ -279,7 +280,7 @@ def check(prop, tier, replay_file=None):
         wd = workdir("%s-%s" % (prop, "replay" if replay_file else tier))
         if replay_file:
             rp = json.load(open(replay_file))
-            cases = [{"id": "replay", "layout": rp["layout"], "sched": rp["sched"], "sleep": rp.get("sleep", "no"), "faults": rp.get("fault", 0), "mode": rp.get("mode", "scripted"), "noise": rp.get("noise", 0)}]
+            cases = [{"id": "replay", "layout": rp["layout"], "sched": rp["sched"], "sleep": rp.get("sleep", "no"), "faults": rp.get("fault", 0), "mode": rp.get("mode", "scripted"), "noise": rp.get("noise", 0), "werr": rp.get("werr", 5)}]
             nlines, counters, bad, kn = record_and_validate(res, exe, wd, cases, prop)
             for l in open(os.path.join(wd, "trace_0.ndjson")):
                 log("  " + l.strip()[:400])
@@ -310,13 +311,16 @@ def check(prop, tier, replay_file=None):
             "states": dist, "transitions": gen, "traces_validated_against_impl": regs["traces"], "samples": samples,
             "schedules_enumerated": len(cases), "runs_of_the_real_loop": regs["traces"], "trace_lines_validated": nlines,
             "monitor_counters": regs, "conformance_drifts": regs["drifts"],
+            "schedules_also_run_under_the_real_driver_at_system_call_level": sum(1 for c in runs_cases if c.get("mode") == "sys"),
             "configurations": [{"layout": c[0], "key_events": c[1], "max_arrivals": c[2], "max_tablet_events": c[3], "max_timeouts": c[4], "max_interruptions": c[5],
                                 "burst_of_events_arriving_at_once": c[6] if len(c) > 6 else 0} for c in GEN[(prop, tier)]],
             "exhaustive": True,
             "rule": "states/transitions: TLC model checking of spec/Loop.tla (loop + environment, design-level invariants incl. NoLostWakeup and SendsAreMapperOutputs) for the listed "
                     "configurations; every finished behaviour = one schedule (all splittings of the key histories into arrivals before polls and during drains, both device orders, "
                     "time-outs, one interruption, every position of end-of-device); each schedule is run on the REAL loop under the scripted driver and the recorded call trace is "
-                    "validated line by line by TLC against spec/LoopTrace.tla; traces_validated_against_impl = traces fully consumed and judged",
+                    "validated line by line by TLC against spec/LoopTrace.tla; a third of the runs (thorough: all) are repeated under the REAL driver (mio, DevInputReader, TabletModeSwitchReader, "
+                    "DevInputWriter) with its epoll_wait/read/write calls answered by the same scripted environment and evdev-style framing noise; "
+                    "traces_validated_against_impl = traces fully consumed and judged",
         }
         if prop == "C20":
             cov.update({"evaluations": regs["traces"], "distinct_nontrivial": regs["failing_calls_judged"],
@@ -325,7 +329,9 @@ def check(prop, tier, replay_file=None):
         res.coverage = cov
         res.assumptions = ["environment assumptions of spec/Loop.tla (edge-triggered readiness; a timed poll times out only after its time-out; end-of-device is last)",
                            "the scripted driver implements that environment (every trace's environment part is replayed and checked by TLC: ENV-* clauses)",
-                           "the clock is observed (monotonic stamps around every call), not controlled"]
+                           "the clock is observed (monotonic stamps around every call), not controlled",
+                           "system-call level runs: the kernel side (poll masks, EAGAIN/ENODEV, input_event framing) is a model of drivers/input/evdev.c written into the recorder; "
+                           "open_device (EVIOCGRAB, /dev/uinput set-up) is not exercised"]
         if regs["drifts"]:
             res.notes.append("DRIFT: %d traces leave LoopCore.tla (the model needs updating; verdicts come from the monitors on the real calls)" % regs["drifts"])
         if not res.violations and not res.tool_errors:
